@@ -13,6 +13,9 @@
 (*   - the real bitmap root equals the from-scratch root (computed by the       *)
 (*     harness from the specification's hash term, not by the accumulator).     *)
 (* Probe = a read-only Extension::rewind (state restored afterwards).           *)
+(* Apply / Stay of a delivered block also carry what its header commits to      *)
+(* (HdrOK): a block is accepted only if that is the from-scratch bitmap of its  *)
+(* own state - next block, reorganisation winner or losing-fork block alike.    *)
 (* Stay  = a delivery that must leave the state untouched (losing fork block    *)
 (*         applied in a rolled-back extension, refused block, a finished        *)
 (*         read-only extension): the COMMITTED root must still be from-scratch. *)
@@ -39,6 +42,15 @@ ObsOK(e, st) ==
     /\ e.root_real = e.root_fs
     /\ e.root_acc = e.root_fs
 
+\* A delivered block whose header folds a bitmap root (header version >= 3) carries hdr_root (what the header
+\* commits to) and hdr_root_fs (output PMMR root folded with the from-scratch bitmap root of the block's OWN
+\* state, computed by the harness). Whatever the delivery class (next block, reorganisation, block that stays on
+\* a losing fork): accepted => the header commits to the from-scratch bitmap; any other bitmap => refused.
+HdrOK(e) ==
+  ("hdr_root" \in DOMAIN e /\ "hdr_root_fs" \in DOMAIN e) =>
+    /\ (e.res # "reject") => (e.hdr_root = e.hdr_root_fs)
+    /\ (e.hdr_root # e.hdr_root_fs) => (e.res = "reject")
+
 TInit == l = 1 /\ uns = {} /\ size = 0 /\ acc = <<>>
 
 TStart ==
@@ -49,6 +61,7 @@ TStart ==
 TApply ==
   /\ IsEvent("Apply")
   /\ E.res = E.exp
+  /\ HdrOK(E)
   /\ ApplyBlock(ToSet(E.spent), size..(E.newsize - 1), E.newsize)
   /\ ObsOK(E, ApplyBlockF(Cur, ToSet(E.spent), size..(E.newsize - 1), E.newsize))
 
@@ -66,7 +79,7 @@ TProbe ==
 
 TReopen == IsEvent("Reopen") /\ Reopen /\ ObsOK(E, ReopenF(Cur))
 
-TStay == IsEvent("Stay") /\ E.res = E.exp /\ ObsOK(E, Cur) /\ UNCHANGED vars
+TStay == IsEvent("Stay") /\ E.res = E.exp /\ HdrOK(E) /\ ObsOK(E, Cur) /\ UNCHANGED vars
 
 TNext == TStart \/ TApply \/ TRewind \/ TProbe \/ TReopen \/ TStay
 TSpec == TInit /\ [][TNext]_tvars
